@@ -279,3 +279,34 @@ func vh_C07_L4_skip_spares_following_fragments() {
 	vassert(err == nil && n == nfrag && vBytesEq(buf[:n], m.bytes) && ppi == PayloadTypeWebRTCString, "the message next to the skipped TSN is delivered intact")
 	vcover("end")
 }
+
+// C07.L3b: the message right behind a skipped one survives also when it is only partly
+// received at the time of the skip (DATA by SSN / I-DATA by MID, symbolic cursors): its
+// fragments are kept, and when the rest arrives it is delivered intact.
+func vh_C07_L3_partly_received_follower_survives_skip() {
+	iData := vPick(2) == 1
+	r := newReassemblyQueue(3, 0)
+	next16, next32, base := nondetU16(), nondetU32(), nondetU32()
+	r.nextSSN, r.nextMID = next16, next32
+	partial := vMakeMsg(3, iData, false, next16, next32, base, 2, PayloadTypeWebRTCBinary)
+	follower := vMakeMsg(3, iData, false, next16+1, next32+1, base+2, 3, PayloadTypeWebRTCString)
+	r.push(partial.chunks[0])
+	got := vPick(3) // which fragment of the follower is still missing at the time of the skip
+	for i, c := range follower.chunks {
+		if i != got {
+			r.push(c)
+		}
+	}
+	if iData {
+		r.forwardTSNForOrderedMID(next32)
+	} else {
+		r.forwardTSNForOrdered(next16)
+	}
+	vassert(r.getNumBytes() == 2, "only the abandoned message is dropped; the fragments of the next one are kept")
+	r.push(follower.chunks[got])
+	vassert(r.isReadable(), "the next message completes")
+	buf := make([]byte, 8)
+	n, ppi, err := r.read(buf)
+	vassert(err == nil && n == 3 && vBytesEq(buf[:n], follower.bytes) && ppi == PayloadTypeWebRTCString, "and is delivered intact")
+	vcover("end")
+}
